@@ -9,14 +9,14 @@ from vf.gen import project, projrun
 
 ID = 'C04'
 LEVEL = 'exploration'
-RULE = ('generated acyclic multi-package projects (depth<=3) in which every definition has a globally unique name and each '
+RULE = ('generated multi-package projects (depth<=3, one or two roots, analysed with the roots in both orders; packages may import and star-import from their own submodules, which may import from the package) in which every definition has a globally unique name and each '
         'name is bound once per scope; import forms: from/from-as/import/import-as/from-pkg-import-module/star, relative '
         'levels 1-3, package and module contexts, imports in class bodies, nested classes. For every name bound at run '
         'time in every module and class namespace (and, from classes, every module-global name), and for dotted chains '
         'through module aliases and classes, Documentable.resolveName is compared with the object CPython binds, joined '
         'through the unique definition names. Non-trivial project: has at least one aliased or relative import.')
 ASSUME = ['CPython is the reference for what a name denotes', 'None is allowed except for names imported directly from the defining module or reached through a module alias']
-DECIDING = {'star_import_names': 100, 'names_resolved': 5000, 'must_resolve_checked': 800, 'dotted_chains': 1500, 'class_scope_queries': 1000, 'alias_queries': 100, 'relative_imports': 100}
+DECIDING = {'unbound_name_queries': 300, 'reversed_root_orders': 20, 'star_import_names': 100, 'names_resolved': 5000, 'must_resolve_checked': 800, 'dotted_chains': 1500, 'class_scope_queries': 1000, 'alias_queries': 100, 'relative_imports': 100}
 CPU_S = 900
 PER = 10
 
@@ -24,6 +24,11 @@ PER = 10
 def cases(tier: str, seed: int) -> List[Dict[str, Any]]:
     n = 300 if tier == 'quick' else 6000
     return [{'seed': seed, 'k': k, 'n': PER} for k in range(0, n, PER)]
+
+
+def worker_init() -> None:
+    from vf.mon import sched
+    sched.install_cycle_monitors()
 
 
 def _expected(info: Dict[str, Any], n: str, varnames: Dict[str, str], bound_vars: Dict[str, str]) -> Optional[str]:
@@ -39,6 +44,66 @@ def _expected(info: Dict[str, Any], n: str, varnames: Dict[str, str], bound_vars
             return varnames[n]
         return bound_vars.get(n)
     return None
+
+
+def _import_graph(sources: Dict[str, Tuple[bool, str]]) -> Dict[str, Set[str]]:
+    """module -> project modules its top-level code (class bodies included, function bodies not) imports, from the source text"""
+    import ast
+    names = set(sources)
+    graph: Dict[str, Set[str]] = {n: set() for n in names}
+
+    def add(frm: str, target: str) -> None:
+        parts = target.split('.')
+        for i in range(len(parts), 0, -1):
+            cand = '.'.join(parts[:i])
+            if cand in names:
+                graph[frm].add(cand)
+                # importing a.b.c imports a and a.b first
+                for k in range(1, i):
+                    graph[frm].add('.'.join(parts[:k]))
+                return
+
+    class V(ast.NodeVisitor):
+        def __init__(self, mod: str, is_pkg: bool) -> None:
+            self.mod, self.is_pkg = mod, is_pkg
+
+        def visit_FunctionDef(self, node: Any) -> None:
+            return
+        visit_AsyncFunctionDef = visit_FunctionDef
+        visit_Lambda = visit_FunctionDef
+
+        def visit_Import(self, node: ast.Import) -> None:
+            for a in node.names:
+                add(self.mod, a.name)
+
+        def visit_ImportFrom(self, node: ast.ImportFrom) -> None:
+            base = node.module or ''
+            if node.level:
+                pkg = self.mod.split('.') if self.is_pkg else self.mod.split('.')[:-1]
+                pkg = pkg[:len(pkg) - (node.level - 1)] if node.level > 1 else pkg
+                base = '.'.join(pkg + ([node.module] if node.module else []))
+            add(self.mod, base)
+            for a in node.names:
+                add(self.mod, f'{base}.{a.name}')
+    for mod, (is_pkg, text) in sources.items():
+        try:
+            V(mod, is_pkg).visit(ast.parse(text))
+        except SyntaxError:
+            pass
+    return graph
+
+
+def _reaches(graph: Dict[str, Set[str]], a: str, b: str) -> bool:
+    seen, todo = set(), [a]
+    while todo:
+        x = todo.pop()
+        for y in graph.get(x, ()):
+            if y == b:
+                return True
+            if y not in seen:
+                seen.add(y)
+                todo.append(y)
+    return False
 
 
 def _collect_binds(items: List[project.Item], out: List[project.Item]) -> None:
@@ -67,6 +132,15 @@ def run_case(case: Dict[str, Any]) -> core.Res:
                 continue
             res.c('evaluations')
             _judge(res, spec, label, dump, system, ('C04', case['seed'], case['k']), j)
+            if len(tp.roots[j]) > 1:
+                # the same project with the paths given in the other order
+                try:
+                    system2 = projrun.build_system(list(reversed(tp.roots[j])))
+                except Exception as e:  # noqa: BLE001
+                    res.v(f'C04:analysis-raises:{type(e).__name__}', f'{label}/reversed-roots: analysis raised {e!r}', traceback=traceback.format_exc()[-1500:])
+                    continue
+                res.c('reversed_root_orders')
+                _judge(res, spec, label + '/reversed-roots', dump, system2, ('C04', case['seed'], case['k']), j)
     return res
 
 
@@ -74,6 +148,7 @@ def _judge(res: core.Res, spec: project.Spec, label: str, dump: Dict[str, Any], 
     from pydoctor import model
     varnames = {q.split('.')[-1]: spec.def_fullname(uid) for uid, (mid, q, kind) in spec.defs.items() if kind == 'var'}
     nontrivial = False
+    graph = _import_graph(project.sources(spec, seed=(seedkey, j)))
     for m in spec.mods:
         full = spec.modname(m.mid)
         rt = dump['modules'].get(full)
@@ -83,6 +158,7 @@ def _judge(res: core.Res, spec: project.Spec, label: str, dump: Dict[str, Any], 
         imports: List[project.Item] = []
         _collect_binds(m.items, imports)
         must: Dict[str, str] = {}            # local name -> why it must resolve
+        star_src: Dict[str, str] = {}
         bound_vars: Dict[str, str] = {}
         modalias: Set[str] = set()
         for it in imports:
@@ -96,6 +172,7 @@ def _judge(res: core.Res, spec: project.Spec, label: str, dump: Dict[str, Any], 
                         # only names the star-imported module itself defines: "imported directly from the module that defines the object"
                         if e2 == f'{it.star_from}.{n}' and n in rt['ns']:
                             must[n] = 'star-imported directly from its defining module'
+                            star_src[n] = it.star_from
                             res.c('star_import_names')
             if ' as ' in it.text or it.text.startswith('from .'):
                 nontrivial = True
@@ -128,6 +205,12 @@ def _judge(res: core.Res, spec: project.Spec, label: str, dump: Dict[str, Any], 
             if got is not None and gotname != exp:
                 form = 'dotted' if '.' in name else 'plain'
                 res.v(f'C04:wrong-object:{form}', f'{label}: in {ctxname}, {name!r} resolves to {gotname}, Python binds it to {exp}', name=name, **witness())
+            elif got is None and why_must and 'star' in why_must and (full, star_src.get(name)) in system.__dict__.get('_vf_star_in_progress', []) \
+                    and _reaches(graph, star_src[name], full):
+                # the star import ran while its source module was still being analysed, and the sources really contain that cycle
+                # (the source module imports, directly or not, the module that star-imports it): the names defined later are never bound
+                res.c('must_resolve_checked')
+                res.v('C04:must-resolve:star-import-from-module-in-progress', f'{label}: in {ctxname}, {name!r} ({why_must}) does not resolve; Python binds it to {exp}', name=name, **witness())
             elif got is None and why_must:
                 res.c('must_resolve_checked')
                 res.v('C04:must-resolve:' + ('module-alias' if 'alias' in why_must else ('star-import' if 'star' in why_must else 'direct-import')),
@@ -200,6 +283,26 @@ def _judge(res: core.Res, spec: project.Spec, label: str, dump: Dict[str, Any], 
                         walk_ns(c, f'{ctxname}.{n}', info['ns'], rt['ns'], depth + 1, enclosing + ((ns,) if globals_ns is not None else ()))
 
         walk_ns(mod, full, rt['ns'], None, 0)
+        # names the module does not bind but one of its packages does: Python binds nothing, so nothing may be resolved
+        import builtins
+        roots_names = {spec.modname(x.mid) for x in spec.mods if x.parent is None}
+        # (modules with a star import are left out: what a star import binds at run time depends on how far the source module had got
+        # when an import cycle is involved, i.e. on the order in which the interpreter happened to enter the cycle)
+        pm = m.parent if not any(it.star_from for it in imports) else None
+        while pm is not None:
+            prt = dump['modules'].get(spec.modname(pm))
+            for n, info in (prt or {'ns': {}})['ns'].items():
+                if n in rt['ns'] or n.startswith('__') or hasattr(builtins, n) or n in roots_names or n in ('_contextlib', '_noop', '_ctx', '_i', 'TYPE_CHECKING'):
+                    continue
+                res.c('unbound_name_queries')
+                try:
+                    got = mod.resolveName(n)
+                except Exception as e:  # noqa: BLE001
+                    res.v(f'C04:resolve-raises:{type(e).__name__}', f'{label}: {full}.resolveName({n!r}) raised {e!r}', **witness())
+                    continue
+                if got is not None:
+                    res.v('C04:unbound-name-resolves', f'{label}: in {full}, {n!r} is not bound (only its package {spec.modname(pm)} binds it) but resolves to {got.fullName()}', name=n, **witness())
+            pm = spec.mods[pm].parent
     if nontrivial:
         res.distinct(label)
     res.sample({'project': label, 'modules': [spec.modname(m.mid) for m in spec.mods]})
